@@ -1386,7 +1386,7 @@ func hbtHeld(T time.Duration) (fails [][2]string) {
 // stalls only moves both ends: the judgement does not depend on load. (A stream that takes the value of the ticker's
 // channel - the instant the tick was DUE, one period after the held refresh began - is stale by hold - period here;
 // on an undisturbed heartbeat it cannot be told from the clock.)
-func hbtStale(T, hold time.Duration) (fails [][2]string, desc string) {
+func hbtStale(T, hold time.Duration) (fails [][2]string, desc string, ageAfterHold time.Duration, announced time.Duration) {
 	what := fmt.Sprintf("timeout %v, the write of one notification held for %v", T, hold)
 	fail := func(key, detail string) { fails = append(fails, [2]string{key, what + ": " + detail}) }
 	id := atomic.AddInt64(&hbtWorldSeq, 1)
@@ -1437,6 +1437,10 @@ func hbtStale(T, hold time.Duration) (fails [][2]string, desc string) {
 			continue
 		}
 		lo, hi := rets[k-1].Add(-time.Second), n.t.Add(time.Second)
+		if k-1 == heldIdx {
+			// how far the denoted instant lies before the earliest instant at which this refresh can have begun
+			ageAfterHold, announced = rets[k-1].Sub(n.tsOwn), n.timeout
+		}
 		if k > heldIdx {
 			ages = append(ages, fmt.Sprintf("%d:%v", n.ctr, n.t.Sub(n.tsOwn).Round(10*time.Millisecond)))
 		}
@@ -1765,7 +1769,7 @@ func TestHeartbeat(t *testing.T) {
 			f := strings.Fields(ops[0])
 			ms, _ := strconv.Atoi(f[1])
 			hold, _ := strconv.Atoi(f[2])
-			fails, desc := hbtStale(time.Duration(ms)*time.Millisecond, time.Duration(hold)*time.Millisecond)
+			fails, desc, _, _ := hbtStale(time.Duration(ms)*time.Millisecond, time.Duration(hold)*time.Millisecond)
 			r.Eval("stale-after-hold", "")
 			for _, f := range fails {
 				r.SpecFail(f[0], ops, f[1])
@@ -1945,7 +1949,7 @@ func TestHeartbeat(t *testing.T) {
 		wg.Add(1)
 		go func(ms, hold int) {
 			defer wg.Done()
-			fails, desc := hbtStale(time.Duration(ms)*time.Millisecond, time.Duration(hold)*time.Millisecond)
+			fails, desc, age, announced := hbtStale(time.Duration(ms)*time.Millisecond, time.Duration(hold)*time.Millisecond)
 			bmu.Lock()
 			defer bmu.Unlock()
 			descs = append(descs, desc)
@@ -1953,6 +1957,18 @@ func TestHeartbeat(t *testing.T) {
 			op := []string{fmt.Sprintf("stale %d %d", ms, hold)}
 			for _, f := range fails {
 				r.SpecFail(f[0], op, f[1])
+			}
+			// tie to Spine.HBS.reading (member `clock`: the clock is read inside the refresh - the regenerated fact of
+			// Props/C16Gen): how far the reading of the refresh after the hold-up lies before its begin, in the model
+			// (refresh 1 held for `hold`, period of the announced timeout); the text has a resolution of 1 s
+			if len(fails) == 0 && announced > 0 {
+				dop := fmt.Sprintf("stale clock %d %d", announced.Milliseconds(), hold)
+				want, err := strconv.Atoi(d.Ask(dop))
+				if err != nil {
+					r.Mismatch(append(op, dop), "-", "bad-op", "driver answer")
+				} else if age > time.Duration(want)*time.Millisecond+time.Second {
+					r.Mismatch(append(op, dop), fmt.Sprintf("the timestamp of the refresh after the hold-up lies %v before the return of the held write", age), fmt.Sprintf("%d ms", want), "age of the reading of the refresh that follows a held one (Spine.HBS.reading, source clock)")
+				}
 			}
 			if len(fails) == 0 {
 				r.Traces++
